@@ -38,7 +38,14 @@ func SpecHuman(spec SessionSpec) interface{} {
 		}
 		var sg []string
 		for _, o := range rs.Signer {
+			if o.CancelCtx {
+				sg = append(sg, fmt.Sprintf("%d+context-cancelled-during-this-call", o.Kind))
+				continue
+			}
 			sg = append(sg, fmt.Sprintf("%d", o.Kind))
+		}
+		if rs.CtxDone {
+			sg = append(sg, "context-already-done-at-start")
 		}
 		runs = append(runs, fmt.Sprintf("run %d: handlers %v; signer outcome kinds %v (0 ok, %d error, %d panic); agent faults %v; agent behaviour %d",
 			n, hs, sg, SigErr, SigPanic, rs.Faults, rs.Beh.Kind))
@@ -624,6 +631,16 @@ func (g *Gen) DriveC04() {
 				g.Emit(fmt.Sprintf("agent-fault/%s", b.name), mk(b, func(r *RunSpec) { r.Faults = map[int]int{i: f} }))
 			}
 		}
+		// the request context becomes done in the middle of the run (no operation fails)
+		for j := 0; j < ncalls; j++ {
+			j := j
+			g.Emit(fmt.Sprintf("context-cancelled-during-signer-call/%s", b.name), mk(b, func(r *RunSpec) {
+				sc := append([]SOutSpec{}, r.Signer...)
+				sc[j].CancelCtx = true
+				r.Signer = sc
+			}))
+		}
+		g.Emit(fmt.Sprintf("context-done-at-start/%s", b.name), mk(b, func(r *RunSpec) { r.CtxDone = true }))
 		for j := 0; j < ncalls; j++ {
 			for _, k := range []int{SigErr, SigPanic} {
 				j, k := j, k
